@@ -27,6 +27,7 @@ type SpecFunc struct {
 	Ret    string
 	Body   Expr
 	Text   string
+	Pkg    string
 }
 
 type Axiom struct {
@@ -187,7 +188,12 @@ func (cs *ContractSet) parseContractFile(file, pkgPath string) error {
 				}
 				sf.Body = e
 			}
-			cs.Specs[sf.Name] = sf
+			sf.Pkg = pkgPath
+			if pkgPath != "" {
+				cs.Specs[pkgPath+"."+sf.Name] = sf
+			} else {
+				cs.Specs[sf.Name] = sf
+			}
 			cur = nil
 		case "axiom":
 			i := strings.Index(rest, ":")
@@ -376,4 +382,15 @@ func (cs *ContractSet) loadExtDir(dir string) error {
 		}
 	}
 	return nil
+}
+
+// lookupSpec resolves a spec function name: the current package's definition first, then the global (ext) ones
+func (cs *ContractSet) lookupSpec(pkg, name string) (*SpecFunc, bool) {
+	if pkg != "" {
+		if sf, ok := cs.Specs[pkg+"."+name]; ok {
+			return sf, true
+		}
+	}
+	sf, ok := cs.Specs[name]
+	return sf, ok
 }
